@@ -275,6 +275,30 @@ def main(ctx):
                 else:
                     ctx.diverge('config state machine: model vs implementation', {'ops': ops, 'impl': outs, 'model': want},
                                 detail=f'op #{i}')
+        # every documented setting with several malformed values: whatever stage rejects it (also validators this
+        # harness knows nothing about), a load that raises must leave the system unconfigured and loadable
+        bad_values = ['zz-unknown-zz', 12345, 'no/such/path/x.toml', {'nested': 1}, [], -1, '']
+        settings = [(None, k) for k, v in defaults.items() if not isinstance(v, dict)]
+        settings += [(sec, k) for sec, v in defaults.items() if isinstance(v, dict) for k in v]
+        settings += [('emissions', 'fuel'), ('weather', 'weather_data_dir'), (None, 'path')]
+        for sec, key in settings:
+            for bv in bad_values:
+                kw = {key: bv} if sec is None else {sec: {key: bv}}
+                rc.Config.reset()
+                r = rc.do({'op': 'load', 'kwargs': kw, 'file': None})
+                ctx.case('fieldwise:' + json.dumps([sec, key, bv], default=str), nontrivial=r.startswith('err:'),
+                         sample=None)
+                ctx.count('fieldwise:' + ('rejected' if r.startswith('err:') else 'accepted'))
+                if r.startswith('err:'):
+                    g = rc.do({'op': 'get'})
+                    nxt = rc.do({'op': 'load', 'kwargs': {}, 'file': None})
+                    if g != 'err:not_set' or not nxt.startswith('cfg:'):
+                        ctx.clause_fail('failed_load_leaves_none',
+                                        {'ops': [{'op': 'load', 'kwargs': kw, 'file': None}, {'op': 'get'}, {'op': 'load', 'kwargs': {}, 'file': None}],
+                                         'impl': [r, g[:40], nxt[:40]], 'expected': [r, 'err:not_set', 'cfg:…']},
+                                        detail=f'load with {sec}.{key}={bv!r} raised ({r}) but left a configuration active '
+                                               f'(get -> {g[:30]}, next valid load -> {nxt[:30]})')
+        rc.Config.reset()
         # deep_update correspondence + precedence on random nested dictionaries
         reqs, cases = [], []
         for _ in range(ctx.scale(quick=300, thorough=8000)):
